@@ -51,7 +51,9 @@ def parseEnvX (others vars funcs ret : String) : Option Env := do
   let vs ← sequenceOpt ((if vars == "-" then [] else vars.splitOn ",").map parseVar)
   let fs ← sequenceOpt ((if funcs == "-" then [] else funcs.splitOn ";").map parseFunc)
   let r ← if ret == "void" then some none else (parseTy ret).map some
-  pure { vars := vs, funcs := intrinsicFuncs os.length ++ fs, ret := r, others := os ++ [.void], templates := templateNames }
+  -- the request states the declared parameter types; the signature holds them stripped of modifiers
+  let fs' := fs.map fun f => { f with params := f.params.map fun p => ⟨stripParamType p.ty, p.io⟩ }
+  pure { vars := vs, funcs := intrinsicFuncs os.length ++ fs', ret := r, others := os ++ [.void], templates := templateNames }
 
 partial def toSExpr : Sx → Option SExpr
   | .list [.atom "lit", .atom k] => (Scalar.ofName? k).map .lit
